@@ -24,6 +24,7 @@ import (
 //   rb/<c>/<fetch|read|commit|next>   call begins            rr/<c>/<msg|eof|ctx|closed|gclosed|gen|err>  call returns
 //   cx/<c>  context of call c cancelled                      xb | xr   Close begins | returned
 //   gj/<member|_> JoinGroup request   gJ/<member> answered ok   gE  a coordinator call answered with an error
+//   gF  a coordinator lookup (connect / FindCoordinator) failed
 //   gs SyncGroup   go OffsetFetch   gh/<member> Heartbeat   gc OffsetCommit   gl/<member> LeaveGroup
 //   co/<n> cc/<n> coordinator connection n opened / closed   bo/<n> bc/<n> broker connection n dialled / closed by the client
 //   fq  Fetch request reached the broker
@@ -55,6 +56,9 @@ type rcfg struct {
 	coord      string // ok | slowjoin | joinerr | rebalance | slowhb
 	nmsgs      int    // messages in the log
 	syncCommit bool
+	faultAt    string // coordinator method at which a fault is injected ("" = none)
+	faultNth   int    // on its n-th call (0 = every call)
+	faultKind  int    // kafka error code, or -1 = the connection breaks / the request times out
 }
 
 type rscenario struct {
@@ -72,6 +76,7 @@ type rscenario struct {
 	// coordinator script
 	mu       sync.Mutex
 	joins    int
+	calls    map[string]int
 	hbs      int
 	holdJoin chan struct{}
 	member   string
@@ -94,9 +99,65 @@ func (s *rscenario) dial(ctx context.Context, network, addr string) (net.Conn, e
 }
 
 // coordinator script (through the verif export hook VerifSetGroupHandler)
+// fault reports whether the scripted fault applies to this coordinator call, and the reply that carries it.
+func (s *rscenario) fault(method string) (kafka.VerifCoordReply, bool) {
+	if s.cfg.faultAt != method {
+		return kafka.VerifCoordReply{}, false
+	}
+	s.mu.Lock()
+	if s.calls == nil {
+		s.calls = map[string]int{}
+	}
+	s.calls[method]++
+	n := s.calls[method]
+	s.mu.Unlock()
+	if s.cfg.faultNth != 0 && n != s.cfg.faultNth {
+		return kafka.VerifCoordReply{}, false
+	}
+	if s.cfg.faultKind < 0 {
+		return kafka.VerifCoordReply{Err: io.ErrUnexpectedEOF}, true
+	}
+	return kafka.VerifCoordReply{Err: kafka.Error(s.cfg.faultKind)}, true
+}
+
 func (s *rscenario) coord(c kafka.VerifCoordCall) kafka.VerifCoordReply {
 	switch c.Method {
+	case "connect", "close":
+	default:
+		if r, ok := s.fault(c.Method); ok {
+			// journal the request with the same token as the fault-free path, then the failure
+			m := c.MemberID
+			if m == "" {
+				m = "_"
+			}
+			switch c.Method {
+			case "joinGroup":
+				s.rec.add("gj/%s", m)
+			case "syncGroup":
+				s.rec.add("gs")
+			case "offsetFetch":
+				s.rec.add("go")
+			case "heartbeat":
+				s.rec.add("gh/%s", m)
+			case "offsetCommit":
+				s.rec.add("gc")
+			case "leaveGroup":
+				s.rec.add("gl/%s", m)
+			}
+			if c.Method == "findCoordinator" {
+				s.rec.add("gF") // the coordinator lookup failed: no request can follow on this attempt
+			} else {
+				s.rec.add("gE")
+			}
+			return r
+		}
+	}
+	switch c.Method {
 	case "connect":
+		if r, ok := s.fault("connect"); ok {
+			s.rec.add("gF")
+			return r // the dial fails: no connection exists
+		}
 		atomic.AddInt32(&s.open, 1)
 		s.rec.add("co/%d", c.Conn)
 		return kafka.VerifCoordReply{}
@@ -371,6 +432,7 @@ func (s *rscenario) finish(base int, t0 time.Time) (string, string) {
 	case <-s.closed:
 	case <-time.After(time.Until(deadline)):
 		closeState = "stuck"
+		noteStuck()
 	}
 	closeMs := time.Since(t0).Milliseconds()
 	_ = closeMs
@@ -455,12 +517,25 @@ func readerScenario(kind int, r *rand.Rand) (string, string) {
 			s.wait(ci, watchdog())
 		}
 		return s.finish(base, t0)
-	case 4, 5, 6, 7, 8: // group reader: running generation / slow join / join errors / rebalance / slow coordinator
-		coord := []string{"ok", "slowjoin", "joinerr", "rebalance", "slowhb"}[kind-4]
-		s := newRScenario(rcfg{mode: "group", broker: "ok", coord: coord, syncCommit: r.Intn(2) == 0, nmsgs: r.Intn(2) * 2})
+	case 4, 5, 6, 7, 8, 10, 11: // group reader: running generation / slow join / join errors / rebalance / slow coordinator / faults
+		cfg := rcfg{mode: "group", broker: "ok", syncCommit: r.Intn(2) == 0, nmsgs: r.Intn(2) * 2}
+		switch kind {
+		case 10: // the coordinator rejects or drops LeaveGroup after a complete join / sync / offset fetch / generation
+			cfg.coord, cfg.faultAt, cfg.faultNth, cfg.faultKind = "ok", "leaveGroup", r.Intn(2), pickFault(r)
+		case 11: // a fault at any other coordinator step, then Close
+			cfg.coord, cfg.faultAt, cfg.faultNth, cfg.faultKind = "ok", pickStep(r), r.Intn(3), pickFault(r)
+		default:
+			cfg.coord = []string{"ok", "slowjoin", "joinerr", "rebalance", "slowhb"}[kind-4]
+		}
+		coord := cfg.coord
+		s := newRScenario(cfg)
 		c := s.call("fetch")
 		if coord != "slowjoin" {
-			s.waitTok("gh/", 500*time.Millisecond)
+			w := 500 * time.Millisecond
+			if cfg.faultAt != "" && cfg.faultAt != "leaveGroup" {
+				w = 60 * time.Millisecond // the generation may never start
+			}
+			s.waitTok("gh/", w)
 		} else {
 			s.waitTok("gj/", 500*time.Millisecond)
 		}
@@ -497,7 +572,14 @@ func readerScenario(kind int, r *rand.Rand) (string, string) {
 		return s.finish(base, t0)
 	default: // ConsumerGroup used directly: Next blocked / handed out, Close, Next after Close
 		coord := []string{"ok", "slowjoin", "joinerr", "rebalance"}[r.Intn(4)]
-		s := newRScenario(rcfg{mode: "cg", coord: coord})
+		cfg := rcfg{mode: "cg", coord: coord}
+		if r.Intn(2) == 0 {
+			cfg.faultAt, cfg.faultNth, cfg.faultKind = pickStep(r), r.Intn(3), pickFault(r)
+			if r.Intn(2) == 0 {
+				cfg.faultAt = "leaveGroup"
+			}
+		}
+		s := newRScenario(cfg)
 		c := s.call("next")
 		if r.Intn(2) == 0 {
 			s.wait(c, 300*time.Millisecond)
@@ -515,6 +597,16 @@ func readerScenario(kind int, r *rand.Rand) (string, string) {
 		s.wait(c3, watchdog())
 		return s.finish(base, t0)
 	}
+}
+
+// pickFault: a Kafka error code the coordinator may answer with, or -1 for a broken connection / timeout.
+func pickFault(r *rand.Rand) int {
+	return []int{25, 15, 16, 27, 22, -1, -1}[r.Intn(7)]
+}
+
+// pickStep: a coordinator step other than LeaveGroup.
+func pickStep(r *rand.Rand) string {
+	return []string{"connect", "findCoordinator", "joinGroup", "syncGroup", "offsetFetch", "heartbeat", "offsetCommit", "readPartitions"}[r.Intn(8)]
 }
 
 func waitOr(ch chan struct{}) chan struct{} {
@@ -536,8 +628,11 @@ func readerPart(seed int64) {
 	}
 	n := 0
 	for rep := 0; rep < reps; rep++ {
-		for kind := 0; kind < 10; kind++ {
+		for kind := 0; kind < 12; kind++ {
 			n++
+			if tooManyStuck() {
+				return
+			}
 			if only("rclose", n) {
 				op, impl := readerScenario(kind, scRand(seed, 2, n))
 				emitSc(n, op, impl)
